@@ -256,6 +256,11 @@ func (d *driver) runValid(stream string, gd *gdef, r *hx.Rand, seed int64, emit 
 		d.addMigCase(stream, x, "", fresh, direct, nil, true, &reads, meta)
 	}
 
+	// one go = the composition of the single steps (same UUID supply): every registered version in turn, then latest
+	checkSingleSteps(res, x, direct, seed, srcVersions[gd.VIdx], gd.Version, fail)
+	// no translation that had an item to translate is left without one
+	checkNoOrphanedTranslations(res, x, direct, srcVersions[gd.VIdx], fail)
+
 	// 13.3: what each rewritten template evaluates to
 	if gd.VIdx <= 2 {
 		checkTemplateMeaning(res, r, x, fail)
